@@ -7,12 +7,13 @@ Open Scope Z_scope.
 Record case := { c_h : list cev; c_nkeys : N; c_nlocs : N; c_obs : list (list Z * list Z) }.
 
 (* location of a client IP id as installed by the harness' fake IPInfoMap *)
-Definition locf (nlocs : N) (ip : N) : N := (ip mod nlocs)%N.
+(* clients whose id is 3 mod 7 hit a database error: location "XD", the extra bucket [nlocs] *)
+Definition locf (nlocs : N) (ip : N) : N := (if ip mod 7 =? 3 then nlocs else ip mod nlocs)%N.
 
 Fixpoint upto (n : nat) : list N := match n with O => [] | S k => upto k ++ [N.of_nat k] end.
 
 Definition snapshot (nk nl : N) (s : tt) : list Z * list Z :=
-  (map (reported_key s) (upto (N.to_nat nk)), map (reported_loc (locf nl) s) (upto (N.to_nat nl))).
+  (map (reported_key s) (upto (N.to_nat nk)), map (reported_loc (locf nl) s) (upto (S (N.to_nat nl)))).
 
 Fixpoint observe (nk nl : N) (cs : cstate) (st : tt * Z) (h : list cev) : list (list Z * list Z) :=
   match h with
